@@ -61,6 +61,12 @@ Fixpoint blocks_of (T : list block) (order : list N) : option (list block) :=
       end
   end.
 
+Fixpoint nodupb (l : list N) : bool :=
+  match l with
+  | [] => true
+  | x :: r => negb (existsb (N.eqb x) r) && nodupb r
+  end.
+
 Fixpoint zrange (lo : Z) (n : nat) : list Z :=
   match n with O => [] | S m => lo :: zrange (lo + 1) m end.
 
@@ -121,8 +127,8 @@ Definition model_ok (fin : Z) (T : list block) (smap order : list N) (trace : li
       let '(sfull, oplog) := run_ops sid (mkP (replay d0 fl) []) (history_ops fin g ob) in
       let L := fl ++ oplog in
       let mfull := observe T sid (p_d sfull) (map bid (p_chain sfull)) in
-      (* the operation sequence satisfies the hypothesis of the theorems *)
-      ops_valid [] (history_ops fin g ob)
+      (* the hypothesis of the theorems: a hash identifies a block *)
+      nodupb (map bid T)
       (* the writes happen in the order and with the content the model says *)
       && list_eqb (list_eqb fact_eqb) trace (firstn (length trace) L)
       && (length trace <=? length L)%nat
